@@ -31,10 +31,13 @@ fn leg_explore(tier: &str, seed: u64, budget_s: u64) -> serde_json::Value {
         exhaustive(BackendKind::Mem, (3, 2), &seed_prefixes(), depth, true, rep, b)
     });
     let (walks, len) = if thorough { (600, 14) } else { (70, 10) };
-    for kind in [BackendKind::Mem, BackendKind::Sqlite, BackendKind::SqliteReopen] {
-        let w = if kind == BackendKind::Mem { walks * 4 } else { walks };
+    for kind in [BackendKind::Mem, BackendKind::Sqlite, BackendKind::SqliteReopen, BackendKind::MemTwoServers, BackendKind::SqliteTwoServers] {
+        let w = if matches!(kind, BackendKind::Mem | BackendKind::MemTwoServers) { walks * 4 } else { walks };
         run_part(&format!("random walks {kind:?}: {w} walks of a seed prefix + {len} random ops, configs cycled over {:?}", CONFIGS), &mut |rep, b| random_walks(kind, seed, w, len, rep, b));
     }
+    run_part(&format!("exhaustive, two Server instances alternating over one in-memory storage: all op sequences of length {depth} after each seed prefix"), &mut |rep, b| {
+        exhaustive(BackendKind::MemTwoServers, (3, 2), &seed_prefixes(), depth, true, rep, b)
+    });
     if thorough {
         run_part("exhaustive SQLite: all op sequences of length 2 (1 client) after each seed prefix", &mut |rep, b| exhaustive(BackendKind::Sqlite, (3, 2), &seed_prefixes(), 2, false, rep, b));
     }
@@ -51,6 +54,7 @@ fn main() {
         "interleave" => tcss_conform::interleave::leg_interleave(tier == "thorough"),
         "http" => tcss_conform::http::leg_http(tier == "thorough", seed),
         "sqlconf" => tcss_conform::sqlconf::leg_sqlconf(tier == "thorough"),
+        "standins" => tcss_conform::standins::leg_standins(),
         "faults" => tcss_conform::faults::leg_faults(tier == "thorough"),
         _ => json!({"error": format!("unknown leg {leg}")}),
     };
